@@ -54,7 +54,10 @@ class LinearInterp(BaseGenerator):
         b = self.b[bin_index]
         x1 = self.x[1:][bin_index]
         d = x - self.int_step[bin_index]
-        y = np.sqrt(b**2 + k * (k * x1**2 + 2 * b * x1 + 2 * d)) - b
+        # the discriminant is the squared density at the solution: it is zero
+        # at a node with zero density and may round to a tiny negative number
+        delta = b**2 + k * (k * x1**2 + 2 * b * x1 + 2 * d)
+        y = np.sqrt(np.maximum(delta, 0.0)) - b
         y2 = d + b * x1
         return np.where(k == 0, y2, y) / np.where(k == 0, b, k)
 
